@@ -1548,7 +1548,9 @@ def shrink_history(EF, shape, hops, key, budget=160):
         chunk = max(1, len(hops) // n)
         reduced = False
         for s in range(0, len(hops), chunk):
-            cand = hops[:s] + hops[s + chunk:]
+            cand = hops[:s] + [h for h in hops[s:s + chunk] if h[0] == 'arRes'] + hops[s + chunk:]       # (the table size stays: cost)
+            if len(cand) == len(hops):
+                continue
             trials += 1
             if cand and fails(cand):
                 hops = cand; n = max(n - 1, 2); reduced = True
@@ -1649,6 +1651,10 @@ def gen_history(r, EF, nmax):
         hops.append(h)
     if not is_obs(hops[-1]):
         hops.append(('compute', radii()))
+    if any(h[0] == 'eqAR' and h[1] == 'search' for h in hops) and hops[0][0] != 'arRes':
+        # (the default table of eqAR_bySearch has 500 aspect ratios and grows by 500 up to 100: minutes with the default quadrature;
+        # histories that use the search start by choosing a coarse table, which is itself one of the calls under test)
+        hops.insert(0, ('arRes', float(r.choice([0.1, 0.2, 0.25])), 1.0))
     return shape, hops
 
 
